@@ -7,7 +7,7 @@ buckets = collections.defaultdict(list)
 def rand_slice(n):
     def b(): return random.choice([None]*3 + list(range(-n-3, n+4)))
     return slice(b(), b(), random.choice([None,1,1,2,3,5,-1,-1,-2,-3]))
-for it in range(60000):
+for it in range(int(__import__("os").environ.get("RECON_N", 60000))):
     a=rand_arr(dt=random.choice([np.int64,np.int8,np.bool_,np.float64,np.uint8])); n=len(a)
     r=RunLengthArray.from_array(a)
     op=random.choice(['int','list','arr','boolmask','rlmask','slice','slice','slice','windows'])
